@@ -5,6 +5,7 @@ package ast
 import (
 	"bytes"
 	"fmt"
+	"sort"
 	"strconv"
 
 	"github.com/robfig/soy/data"
@@ -749,14 +750,17 @@ func (n *MapLiteralNode) String() string {
 	if len(n.Items) == 0 {
 		return "[:]"
 	}
+	var keys = make([]string, 0, len(n.Items))
+	for k := range n.Items {
+		keys = append(keys, k)
+	}
+	sort.Strings(keys) // map iteration order is random; keep the text stable.
 	var expr = "["
-	var first = true
-	for k, v := range n.Items {
-		if !first {
+	for i, k := range keys {
+		if i > 0 {
 			expr += ", "
 		}
-		expr += fmt.Sprintf("'%s': %s", k, v.String())
-		first = false
+		expr += fmt.Sprintf("'%s': %s", k, n.Items[k].String())
 	}
 	return expr + "]"
 }
